@@ -1,10 +1,15 @@
 import Driver.ProgJson
 import Heph.Model.TransJava
+import Heph.Spec.JavaBalance
 /-! op "trans.java": {tt, lang, decls, context, ctxvals, package, history?} → text of the
     `JavaTranslator` model.  `ctxvals` is parallel to `context`: the header-form declaration
     registered under that entry (`null` for Python `None` and for `types` entries).
     `history` (optional): a list of earlier programs `{tt, decls, context, ctxvals, package}`
-    translated first on the same translator state. -/
+    translated first on the same translator state.
+    The answer also carries `balanced` (the bracket scanner `Spec/JavaBalance.scan` on the model's text)
+    and `hyps` (the hypotheses of `Props/C02.javaText_balanced` on this input: `atomsOKL decls`,
+    `envOK env`, bracket-free package).
+    op "java.scan": {text} → the same scanner's verdict on an arbitrary text (the real translator's). -/
 open Lean Heph
 namespace Driver.TransJava
 
@@ -31,8 +36,16 @@ def handle : Handler := fun op j =>
         | .ok h => (← h.getArr?).toList.mapM parseOne
       let st := hist.foldl (fun st (e, pk, ds) => (TransJava.visitProgram e pk st ds).1) TransJava.St.init
       let (st', text) := TransJava.visitProgram env pkg st decls
+      let hyps := TransJava.atomsOKL decls && TransJava.envOK env && TransJava.brFreeB pkg
       pure (Json.mkObj [("r", Json.str text), ("fuel", Json.num (JsonNumber.fromNat (TransJava.fuelOf decls))),
+                        ("balanced", Json.bool (TransJava.balancedB text)), ("hyps", Json.bool hyps),
+                        ("hyps_parts", Json.mkObj [("atoms", Json.bool (TransJava.atomsOKL decls)),
+                                                   ("env", Json.bool (TransJava.envOK env)),
+                                                   ("package", Json.bool (TransJava.brFreeB pkg))]),
                         ("reset", Json.bool (st'.ident == 0 && st'.xCounter == 0 && st'.mainChildren.isEmpty))]))
+  | "java.scan" => some (do
+      let text ← j.getObjValAs? String "text"
+      pure (Json.mkObj [("r", Json.bool (TransJava.balancedB text))]))
   | _ => none
 
 end Driver.TransJava
